@@ -462,7 +462,7 @@
     /// its range, and every other token must be reported unchanged.
     #[test]
     fn verif_oracle_multi_unit_splits() {
-        if !want("C09") && !want("C10") { return; }
+        if !want("C09") && !want("C10") && !want("C03") { return; }
         let pos = "名詞,普通名詞,一般,*,*,*";
         let mut lex = String::new();
         for (k, c) in [("あ", 3000), ("い", 3000), ("う", 3000), ("え", 3000), ("お", 3000), ("の", 3000), ("あい", 2000)] { lex.push_str(&format!("{},8,8,{},{},{},{},{},*,A,*,*,*,*\n", k, c, k, pos, k, k)); }
@@ -473,6 +473,11 @@
         // rows 11..13: a word reached through an EXPANDING normalisation (㍿ -> 株式会社: one original character, two units)
         for (k, c) in [("株式", 3000), ("会社", 3000)] { lex.push_str(&format!("{},8,8,{},{},{},{},{},*,A,*,*,*,*\n", k, c, k, pos, k, k)); }
         lex.push_str(&format!("株式会社,8,8,-2000,株式会社,{},株式会社,株式会社,*,C,11/12,*,*,*\n", pos));
+        // rows 14..16: units whose own keys are LONGER than the word that declares them (okurigana variants: 打合せ = 打ち + 合わせ). The
+        // statement of C09 does not cover such a word, but C03 / C01 do: no panic, and the sub-tokens still partition the word - every unit
+        // but the last takes its own key length, the last one ends where the word ends
+        for (k, c) in [("打ち", 3000), ("合わせ", 3000)] { lex.push_str(&format!("{},8,8,{},{},{},{},{},*,A,*,*,*,*\n", k, c, k, pos, k, k)); }
+        lex.push_str(&format!("打合せ,8,8,-2000,打合せ,{},打合せ,打合せ,*,C,14/15,*,*,*\n", pos));
         let mut cfgb = ConfigTestSupport::new();
         let mut dic = DictBuilder::new_system();
         dic.read_conn(super::super::MATRIX_10_10).unwrap();
@@ -485,11 +490,12 @@
                 ("あいう", Mode::A) => Some(vec!["あ", "い", "う"]), ("あいう", Mode::B) => Some(vec!["あい", "う"]),
                 ("えお", Mode::A) => Some(vec!["え", "お"]),
                 ("あいうえお", Mode::A) => Some(vec!["あ", "い", "う", "え", "お"]), ("あいうえお", Mode::B) => Some(vec!["あいう", "えお"]),
+                ("打合せ", Mode::A) => Some(vec!["打合", "せ"]),
                 ("㍿", Mode::A) => Some(vec!["㍿", ""]),       // both units lie inside the one original character: the first maps to it, the second is empty
                 _ => None,
             }
         };
-        let pieces = ["あいう", "えお", "の", "あいうえお", "あ", "㍿"];
+        let pieces = ["あいう", "えお", "の", "あいうえお", "あ", "㍿", "打合せ"];
         let mut texts: Vec<String> = Vec::new();
         let mut frontier = vec![String::new()];
         for _ in 0..4 {
@@ -737,14 +743,25 @@
         let mut cfgb = ConfigTestSupport::new();
         let mut dic = DictBuilder::new_system();
         dic.read_conn(super::super::MATRIX_10_10).unwrap();
-        dic.read_lexicon(SYSTEM_LEX).unwrap();
+        // the common lexicon plus a word written with digits only that is NOT a numeral (a model number): such a word never starts a joined numeral
+        let mut lex = SYSTEM_LEX.to_vec();
+        if !lex.ends_with(b"\n") { lex.push(b'\n'); }
+        lex.extend_from_slice("777,8,8,-3000,777,名詞,普通名詞,一般,*,*,*,ナナナナナナ,777,*,A,*,*,*,*\n".as_bytes());
+        dic.read_lexicon(&lex[..]).unwrap();
         dic.resolve().unwrap();
         dic.compile(&mut cfgb.make_system()).unwrap();
-        let with = JapaneseDictionary::from_cfg(&cfgb.config()).unwrap();
         let mut cfg0 = cfgb.config();
         cfg0.path_rewrite_plugins.clear();
         let without = JapaneseDictionary::from_cfg(&cfg0).unwrap();
-        let pieces = ["アイ", "ウ", "ア", "に", "1", "万", ",", "京都"];
+        let mut failures = Vec::new();
+        let mut ntexts = 0usize;
+        // the plugins as configured, and with the numeral plugin told to keep the forms as they are ("enableNormalize": false)
+        for keep_forms in [false, true] {
+        let mut cfg1 = cfgb.config();
+        if keep_forms { for p in cfg1.path_rewrite_plugins.iter_mut() { if p["class"].as_str().map(|c| c.contains("JoinNumericPlugin")).unwrap_or(false) { p["enableNormalize"] = serde_json::Value::Bool(false); } } }
+        let with = JapaneseDictionary::from_cfg(&cfg1).unwrap();
+        let numeral_pos = with.grammar().get_part_of_speech_id(&["名詞", "数詞", "*", "*", "*", "*"]);
+        let pieces = ["アイ", "ウ", "ア", "に", "1", "万", ",", "京都", "777"];
         let mut texts: Vec<String> = Vec::new();
         let mut frontier = vec![String::new()];
         for _ in 0..5 {
@@ -754,7 +771,7 @@
             frontier = nf;
         }
         let mergeable = |s: &str| s.chars().all(|c| ('\u{30a1}'..='\u{30ff}').contains(&c)) || s.chars().all(|c| c.is_ascii_digit() || "万,.".contains(c) || "〇一二三四五六七八九十百千億兆".contains(c));
-        let mut failures = Vec::new();
+        ntexts += texts.len();
         for t in texts.iter() {
             let run = |jd: &JapaneseDictionary| -> Result<Vec<(usize, usize, u16, u32, String)>, String> {
                 std::panic::catch_unwind(std::panic::AssertUnwindSafe(|| {
@@ -774,13 +791,63 @@
                     let numeral = mergeable(&t[k.0..k.1]) && t[k.0..k.1].chars().any(|c| c.is_ascii_digit() || c == '万');
                     if (x.2 != k.2 || x.3 != k.3 || (!numeral && x.4 != k.4)) && failures.len() < 20 { failures.push(format!("C14: {:?}: the token {}..{} is not part of a merge but is reported as {:?} instead of {:?}", t, k.0, k.1, k, x)); }
                 } else {
+                    // a joined numeral carries the numeral part of speech (the plugin joins only runs that START with a numeral word)
+                    if !t[k.0..k.1].chars().all(|c| ('\u{30a1}'..='\u{30ff}').contains(&c)) && Some(k.2) != numeral_pos && failures.len() < 20 { failures.push(format!("C14: {:?} (enableNormalize {}): the joined token {:?} carries part of speech {} instead of the numeral one {:?}", t, !keep_forms, &t[k.0..k.1], k.2, numeral_pos)); }
                     for x in inner.iter() {
                         if !mergeable(&t[x.0..x.1]) && failures.len() < 20 { failures.push(format!("C14: {:?}: the token {:?} ({}..{}) can not be part of a merge, but was swallowed by {:?}", t, &t[x.0..x.1], x.0, x.1, &t[k.0..k.1])); }
                     }
                 }
             }
         }
-        println!("verif_oracle_plugins_only_merge: {} texts, {} failures", texts.len(), failures.len());
+        }
+        println!("verif_oracle_plugins_only_merge: {} texts, {} failures", ntexts, failures.len());
+        for f in failures.iter().take(5) { println!("FAILING INPUT: {}", f); }
+        assert!(failures.is_empty());
+    }
+
+    /// C05, the grammar section read back: part-of-speech strings of 1 / 126 / 127 / 128 UTF-16 units (the length prefix switches to two
+    /// bytes at 127, so the matrix starts at an odd or an even address) in front of a 10 x 11 matrix of pairwise distinct costs: every cell
+    /// read through the loaded dictionary equals the matrix text, every entry reports its declared strings and is found by lookup
+    #[test]
+    fn verif_oracle_matrix_cells_behind_long_pos() {
+        if !want("C05") { return; }
+        let mut failures: Vec<String> = Vec::new();
+        let mut cases = 0usize;
+        let mut matrix = String::from("10 11\n");
+        let cell = |l: usize, r: usize| -> i16 { (37 * l as i16 + 5 * r as i16 - 200) * 3 };
+        for l in 0..10 { for r in 0..11 { matrix.push_str(&format!("{} {} {}\n", l, r, cell(l, r))); } }
+        for n in [1usize, 126, 127, 128, 255] { for longs in [1usize, 2, 3] {
+            cases += 1;
+            let comp: String = std::iter::repeat('あ').take(n).collect();
+            let mut pos: Vec<String> = vec!["名詞".to_string(), "普通名詞".to_string(), "一般".to_string(), "*".to_string(), "*".to_string(), "*".to_string()];
+            for k in 0..longs { pos[3 + k] = format!("{}{}", comp, k); }
+            let lex = format!("京,1,2,100,京,{},キョウ,京,*,A,*,*,*,*\n都,2,1,200,都,名詞,普通名詞,一般,*,*,*,ト,都,*,A,*,*,*,*\n五,9,9,2478,五,名詞,数詞,*,*,*,*,ゴ,五,*,A,*,*,*,*\n", pos.join(","));
+            let r = std::panic::catch_unwind(std::panic::AssertUnwindSafe(|| -> Result<(), String> {
+                let mut cfgb = ConfigTestSupport::new();
+                let mut dic = DictBuilder::new_system();
+                dic.read_conn(matrix.as_bytes()).map_err(|e| format!("matrix refused: {:?}", e))?;
+                dic.read_lexicon(lex.as_bytes()).map_err(|e| format!("lexicon refused: {:?}", e))?;
+                dic.resolve().map_err(|e| format!("{:?}", e))?;
+                dic.compile(&mut cfgb.make_system()).map_err(|e| format!("{:?}", e))?;
+                let jd = JapaneseDictionary::from_cfg(&cfgb.config()).map_err(|e| format!("does not load: {:?}", e))?;
+                let m = jd.grammar().conn_matrix();
+                if m.num_left() != 10 || m.num_right() != 11 { return Err(format!("matrix dimensions read as {} x {}", m.num_left(), m.num_right())); }
+                for l in 0..10usize { for r in 0..11usize {
+                    let got = m.cost(l as u16, r as u16);
+                    if got != cell(l, r) { return Err(format!("connection cost ({}, {}) reads {}, the matrix text says {}", l, r, got, cell(l, r))); }
+                }}
+                let mut tok = StatefulTokenizer::new(&jd, Mode::C);
+                tok.reset().push_str("京都");
+                tok.do_tokenize().map_err(|e| format!("{:?}", e))?;
+                let mut ms = MorphemeList::empty(&jd); ms.collect_results(&mut tok).map_err(|e| format!("{:?}", e))?;
+                let got: Vec<(String, Vec<String>, String)> = ms.iter().map(|m| (m.surface().to_string(), m.part_of_speech().to_vec(), m.reading_form().to_string())).collect();
+                let want = vec![("京".to_string(), pos.clone(), "キョウ".to_string()), ("都".to_string(), vec!["名詞", "普通名詞", "一般", "*", "*", "*"].into_iter().map(String::from).collect(), "ト".to_string())];
+                if got != want { return Err(format!("京都 is reported as {:?}", got.iter().map(|g| (g.0.clone(), g.1.iter().map(|c| c.chars().count()).collect::<Vec<_>>(), g.2.clone())).collect::<Vec<_>>())); }
+                Ok(())
+            })).unwrap_or_else(|_| Err("panic".to_string()));
+            if let Err(e) = r { if failures.len() < 20 { failures.push(format!("C05: dictionary with {} part-of-speech component(s) of {} characters: {}", longs, n + 1, e)); } }
+        }}
+        println!("verif_oracle_matrix_cells_behind_long_pos: {} dictionaries, {} failures", cases, failures.len());
         for f in failures.iter().take(5) { println!("FAILING INPUT: {}", f); }
         assert!(failures.is_empty());
     }
